@@ -1,6 +1,7 @@
 import TinkVerif.Props.C04
 import TinkVerif.Props.C08
 import TinkVerif.Lemmas.XorBytes
+import TinkVerif.Lemmas.CmacDbl
 
 /-!
 # C08 (deep) — implementation = RFC specification, for all inputs
@@ -201,4 +202,496 @@ example : xorEndAndCompute (fun b => b.reverse) (List.replicate 20 7) (List.repl
     some (compute (fun b => b.reverse) (xorend (List.replicate 20 7) (List.replicate 16 9))) :=
   xorEndAndCompute_eq _ _ _ (by decide) (by decide)
 
+/-! ## 3. `mulByX` = RFC 4493 doubling -/
+
+theorem mulByX_length (b : Block) : (mulByX b).length = 16 := by
+  simp [mulByX]
+
+theorem len16_cases (b : Bytes) (h : b.length = 16) :
+    ∃ b0 b1 b2 b3 b4 b5 b6 b7 b8 b9 b10 b11 b12 b13 b14 b15 : UInt8,
+      b = [b0, b1, b2, b3, b4, b5, b6, b7, b8, b9, b10, b11, b12, b13, b14, b15] := by
+  match b, h with
+  | [b0, b1, b2, b3, b4, b5, b6, b7, b8, b9, b10, b11, b12, b13, b14, b15], _ =>
+    exact ⟨b0, b1, b2, b3, b4, b5, b6, b7, b8, b9, b10, b11, b12, b13, b14, b15, rfl⟩
+
+/-- the Go byte loop is the recursive shift, with the reduction constant xor'ed into the last byte -/
+theorem mulByX_shiftList (b : Block) (h : b.length = 16) :
+    mulByX b = (shiftList b).take 15 ++
+      [((b.getD 15 0) <<< 1) ^^^ (if (b.getD 0 0) >>> 7 = 1 then 0x87 else 0)] ∧
+    shiftList b = (shiftList b).take 15 ++ [(b.getD 15 0) <<< 1] := by
+  obtain ⟨b0, b1, b2, b3, b4, b5, b6, b7, b8, b9, b10, b11, b12, b13, b14, b15, rfl⟩ :=
+    len16_cases b h
+  exact ⟨rfl, rfl⟩
+
+theorem u8_ofNat_xor (a c : UInt8) : UInt8.ofNat (a.toNat ^^^ c.toNat) = a ^^^ c := by
+  rw [← UInt8.toNat_xor]; simp
+
+/-- **`mulByX` is the RFC 4493 §2.3 doubling** `(L << 1) mod 2^128`, xor `0x87` iff `msb(L) = 1`,
+    for every 16-byte block. -/
+theorem mulByX_eq_dblSpec (b : Block) (h : b.length = 16) : mulByX b = dblSpec b := by
+  obtain ⟨h1, h2⟩ := mulByX_shiftList b h
+  obtain ⟨x0, l, rfl⟩ : ∃ x l, b = x :: l := by
+    cases b with
+    | nil => simp at h
+    | cons x l => exact ⟨x, l, rfl⟩
+  have hl : l.length = 15 := by simpa using h
+  have hx0 : (x0 :: l).getD 0 0 = x0 := rfl
+  rw [hx0] at h1
+  generalize hI : (shiftList (x0 :: l)).take 15 = I at h1 h2
+  generalize (x0 :: l).getD 15 0 = x15 at h1 h2
+  have hIlen : I.length = 15 := by
+    rw [← hI, List.length_take, shiftList_length, h]; rfl
+  -- the number
+  have hsum := two_mul_toNatBE x0 l
+  have hN := Bytes.toNatBE_cons x0 l
+  have hlt := Bytes.toNatBE_lt l
+  rw [h2, Bytes.toNatBE_append_singleton] at hsum
+  have hT := Bytes.toNatBE_lt I
+  rw [hl] at hsum hN hlt
+  rw [hIlen] at hT
+  have e16 : (256 : Nat) ^ (15 + 1) = 340282366920938463463374607431768211456 := by decide
+  have e15 : (256 : Nat) ^ 15 = 1329227995784915872903807060280344576 := by decide
+  have e128 : (2 : Nat) ^ 128 = 340282366920938463463374607431768211456 := by decide
+  have e127 : (2 : Nat) ^ 127 = 170141183460469231731687303715884105728 := by decide
+  rw [e16] at hsum
+  rw [e15] at hN hlt hT
+  have hr := (x15 <<< 1).toNat_lt
+  have hx := x0.toNat_lt
+  have hofI : Bytes.ofNatBE 15 (Bytes.toNatBE I) = I := by
+    have := Bytes.ofNatBE_toNatBE I
+    rwa [hIlen] at this
+  unfold dblSpec
+  dsimp only
+  rw [e128, e127, h1]
+  generalize Bytes.toNatBE (x0 :: l) = N at hsum hN
+  generalize Bytes.toNatBE l = N' at hN hlt
+  generalize hTT : Bytes.toNatBE I = T at hsum hT hofI
+  have hs : N * 2 % 340282366920938463463374607431768211456 = T * 256 + (x15 <<< 1).toNat := by
+    omega
+  rw [hs]
+  by_cases hmsb : 128 ≤ x0.toNat
+  · rw [if_pos ((u8_shr7_eq_one_iff x0).mpr hmsb), if_pos (by omega)]
+    have h87 : (0x87 : Nat) = (0x87 : UInt8).toNat := by decide
+    rw [Bytes.nat_xor_low _ _ _ hr (by decide),
+      Bytes.ofNatBE_succ_mul_add 15 _ _ (Bytes.nat_xor_lt_256 _ _ hr (by decide)), hofI, h87,
+      u8_ofNat_xor]
+  · rw [if_neg (fun hh => hmsb ((u8_shr7_eq_one_iff x0).mp hh)), if_neg (by omega)]
+    rw [Bytes.ofNatBE_succ_mul_add 15 _ _ hr, hofI, UInt8.ofNat_toNat, UInt8.xor_zero]
+
+/-- the numeric form: `toNatBE (mulByX b) = (2·toNatBE b mod 2^128) xor (0x87 if msb)` -/
+theorem toNatBE_mulByX (b : Block) (h : b.length = 16) :
+    Bytes.toNatBE (mulByX b) =
+      (if Bytes.toNatBE b ≥ 2 ^ 127 then (Bytes.toNatBE b * 2) % 2 ^ 128 ^^^ 0x87
+       else (Bytes.toNatBE b * 2) % 2 ^ 128) := by
+  rw [mulByX_eq_dblSpec b h]
+  unfold dblSpec
+  dsimp only
+  rw [Bytes.toNatBE_ofNatBE]
+  have e : (256 : Nat) ^ 16 = 2 ^ 128 := by decide
+  rw [e]
+  apply Nat.mod_eq_of_lt
+  have hm : (Bytes.toNatBE b * 2) % 2 ^ 128 < 2 ^ 128 := Nat.mod_lt _ (Nat.two_pow_pos 128)
+  split
+  · exact Nat.xor_lt_two_pow hm (by decide)
+  · exact hm
+
+example : mulByX (Bytes.ofNatBE 16 (2 ^ 127 + 5)) = dblSpec (Bytes.ofNatBE 16 (2 ^ 127 + 5)) :=
+  mulByX_eq_dblSpec _ (by simp)
+
 end TinkVerif.Cmac
+
+namespace TinkVerif.Siv
+open TinkVerif TinkVerif.Cmac
+
+/-! ## 2. `s2v` (Go, two branches) = RFC 5297 S2V -/
+
+theorem compute_length (E : Block → Block) (hE : ∀ b, (E b).length = 16) (data : Bytes) :
+    (compute E data).length = 16 := by
+  unfold compute
+  exact hE _
+
+/-- `XORBytes(block, block, msg); block[len(msg)] ^= 0x80` is `block xor pad(msg)` -/
+theorem xor_pad16 (b2 msg : Bytes) (hb : b2.length = 16) (hm : msg.length < 16) :
+    Bytes.xor (b2.take msg.length) msg ++ [(b2.getD msg.length 0) ^^^ 0x80] ++
+        b2.drop (msg.length + 1) = Bytes.xor b2 (pad16 msg) := by
+  unfold pad16
+  rw [Bytes.xor_append_right, Bytes.xor_append_right]
+  simp only [List.length_append, List.length_singleton]
+  rw [Bytes.xor_zeros_right _ _ (by rw [List.length_drop]; omega)]
+  rw [List.take_take, Nat.min_eq_left (Nat.le_succ _), List.drop_take]
+  have hdrop : b2.drop msg.length = b2[msg.length]'(by omega) :: b2.drop (msg.length + 1) :=
+    List.drop_eq_getElem_cons (by omega)
+  have hget : b2.getD msg.length 0 = b2[msg.length]'(by omega) := by
+    rw [List.getD_eq_getElem?_getD, List.getElem?_eq_getElem (by omega)]; rfl
+  rw [hdrop, hget, show msg.length + 1 - msg.length = 1 by omega]
+  rw [show ∀ (a : UInt8) (l : Bytes), List.take 1 (a :: l) = [a] from fun _ _ => rfl,
+    Bytes.xor_singleton]
+
+/-- **`s2v` = RFC 5297 §2.4 S2V** (one associated-data string), for every block function with
+    16-byte outputs and all `msg`, `ad`. -/
+theorem s2v_eq_spec (E1 : Block → Block) (hE : ∀ b, (E1 b).length = 16) (msg ad : Bytes) :
+    s2v E1 msg ad = s2vSpec E1 msg ad := by
+  unfold s2v s2vSpec
+  dsimp only
+  have hD : (Bytes.xor (mulByX (compute E1 zero16)) (compute E1 ad)).length = 16 := by
+    rw [Bytes.length_xor, mulByX_length, compute_length E1 hE]; rfl
+  by_cases hlen : msg.length ≥ 16
+  · rw [if_pos hlen, if_pos hlen, xorEndAndCompute_eq E1 msg _ hD hlen]
+    rfl
+  · rw [if_neg hlen, if_neg hlen, xor_pad16 _ msg (mulByX_length _) (by omega)]
+
+/-- the short branch alone needs no hypothesis on `E1` -/
+theorem s2v_eq_spec_short (E1 : Block → Block) (msg ad : Bytes) (h : msg.length < 16) :
+    s2v E1 msg ad = s2vSpec E1 msg ad := by
+  unfold s2v s2vSpec
+  dsimp only
+  rw [if_neg (by omega), if_neg (by omega), xor_pad16 _ msg (mulByX_length _) h]
+
+/-- S2V written entirely in RFC terms: RFC 4493 `spec` for CMAC and RFC doubling `dblSpec` -/
+theorem s2v_eq_rfc (E1 : Block → Block) (hE : ∀ b, (E1 b).length = 16) (msg ad : Bytes) :
+    s2v E1 msg ad =
+      (let D := Bytes.xor (dblSpec (spec E1 zero16)) (spec E1 ad)
+       let T := if msg.length ≥ 16 then xorend msg D else Bytes.xor (dblSpec D) (pad16 msg)
+       spec E1 T) := by
+  rw [s2v_eq_spec E1 hE]
+  unfold s2vSpec
+  dsimp only
+  have h0 : (compute E1 zero16).length = 16 := compute_length E1 hE _
+  have hD : (Bytes.xor (mulByX (compute E1 zero16)) (compute E1 ad)).length = 16 := by
+    rw [Bytes.length_xor, mulByX_length, compute_length E1 hE]; rfl
+  rw [compute_eq_spec E1 _, mulByX_eq_dblSpec _ hD, mulByX_eq_dblSpec _ h0,
+    compute_eq_spec E1 zero16, compute_eq_spec E1 ad]
+
+theorem s2v_length (E1 : Block → Block) (hE : ∀ b, (E1 b).length = 16) (msg ad : Bytes) :
+    (s2v E1 msg ad).length = 16 := by
+  rw [s2v_eq_spec E1 hE]
+  unfold s2vSpec
+  exact compute_length E1 hE _
+
+/-- the `hs` hypothesis of `decryptRaw_encryptRaw` (C08) is now discharged -/
+theorem decryptRaw_encryptRaw' (E1 E2 : Block → Block) (hE1 : ∀ b, (E1 b).length = 16)
+    (hE2 : ∀ b, (E2 b).length = 16) (pt ad : Bytes) :
+    decryptRaw E1 E2 (encryptRaw E1 E2 pt ad) ad = some pt :=
+  decryptRaw_encryptRaw E1 E2 hE2 pt ad (s2v_length E1 hE1 pt ad)
+
+/-- non-vacuity: a 16-byte-output block function, both branches -/
+example : s2v (fun b => (b ++ Bytes.zeros 16).take 16) (List.replicate 20 3) [1, 2] =
+    s2vSpec (fun b => (b ++ Bytes.zeros 16).take 16) (List.replicate 20 3) [1, 2] :=
+  s2v_eq_spec _ (by intro b; simp) _ _
+example : s2v (fun b => (b ++ Bytes.zeros 16).take 16) [5, 6, 7] [1, 2] =
+    s2vSpec (fun b => (b ++ Bytes.zeros 16).take 16) [5, 6, 7] [1, 2] :=
+  s2v_eq_spec _ (by intro b; simp) _ _
+
+/-- the length hypothesis on `E1` is necessary for the long branch: with a 1-byte block function
+    the Go code would hit its `panic` (model: `getD []`), the RFC expression is still defined -/
+example : s2v (fun _ => [1]) (List.replicate 16 0) [] ≠ s2vSpec (fun _ => [1]) (List.replicate 16 0) [] := by
+  decide
+
+end TinkVerif.Siv
+
+namespace TinkVerif.Kwp
+open TinkVerif
+
+/-! ## 4. KWP: `Unwrap ∘ Wrap = id`, output length, size rejections -/
+
+theorem semiblocks_length (b : Bytes) : (semiblocks b).length = b.length / 8 := by
+  simp [semiblocks]
+
+theorem semiblocks_mem_len (b : Bytes) (h : b.length % 8 = 0) :
+    ∀ r ∈ semiblocks b, r.length = 8 := by
+  intro r hr
+  simp only [semiblocks, List.mem_map, List.mem_range] at hr
+  obtain ⟨i, hi, rfl⟩ := hr
+  rw [List.length_take, List.length_drop]
+  omega
+
+theorem flatten_blocks_aux (b : Bytes) (k : Nat) (hk : 8 * k ≤ b.length) :
+    ((List.range k).map fun i => (b.drop (8 * i)).take 8).flatten = b.take (8 * k) := by
+  induction k with
+  | zero => simp
+  | succ k ih =>
+    rw [List.range_succ, List.map_append, List.flatten_append, ih (by omega)]
+    simp only [List.map_cons, List.map_nil, List.flatten_cons, List.flatten_nil, List.append_nil]
+    rw [show 8 * (k + 1) = 8 * k + 8 by omega, List.take_add]
+
+/-- cutting a multiple-of-8 string into semiblocks and concatenating gives it back -/
+theorem flatten_semiblocks (b : Bytes) (h : b.length % 8 = 0) : (semiblocks b).flatten = b := by
+  unfold semiblocks
+  rw [flatten_blocks_aux b _ (by omega), List.take_of_length_le (by omega)]
+
+theorem flatten_length8 (R : List Bytes) (h : ∀ r ∈ R, r.length = 8) :
+    R.flatten.length = 8 * R.length := by
+  induction R with
+  | nil => rfl
+  | cons r R ih =>
+    rw [List.flatten_cons, List.length_append, h r (List.mem_cons_self),
+      ih (fun x hx => h x (List.mem_cons_of_mem _ hx)), List.length_cons]
+    omega
+
+/-- cutting a concatenation of 8-byte blocks recovers the blocks -/
+theorem semiblocks_flatten (R : List Bytes) (h : ∀ r ∈ R, r.length = 8) :
+    semiblocks R.flatten = R := by
+  induction R with
+  | nil => rfl
+  | cons r R ih =>
+    have hr : r.length = 8 := h r (List.mem_cons_self)
+    have hR : ∀ x ∈ R, x.length = 8 := fun x hx => h x (List.mem_cons_of_mem _ hx)
+    have ih' := ih hR
+    unfold semiblocks at ih' ⊢
+    rw [flatten_length8 _ h, List.length_cons, show 8 * (R.length + 1) / 8 = R.length + 1 by omega,
+      List.range_succ_eq_map, List.map_cons, List.map_map]
+    rw [flatten_length8 _ hR, show 8 * R.length / 8 = R.length by omega] at ih'
+    congr 1
+    · rw [List.flatten_cons, Nat.mul_zero, List.drop_zero, List.take_left' hr]
+    · refine Eq.trans ?_ ih'
+      apply List.map_congr_left
+      intro i _
+      simp only [Function.comp_apply, List.flatten_cons]
+      rw [show 8 * i.succ = 8 + 8 * i by omega, ← List.drop_drop, List.drop_left' hr]
+
+theorem aiv_length (n : Nat) : (aiv n).length = 8 := by simp [aiv, Bytes.be32]
+
+theorem stepF_good' (E : Bytes → Bytes) (hE : ∀ b, b.length = 16 → (E b).length = 16) (n : Nat)
+    (hn : 0 < n) (s : WState) (g : Good n s) (t : Nat) : Good n (stepF E n s t) := by
+  have hj : (t - 1) % n < s.R.length := by rw [g.rn]; exact Nat.mod_lt _ hn
+  have hin : (s.A ++ s.R.getD ((t - 1) % n) []).length = 16 := by
+    rw [List.length_append, g.a8, getD_mem_len _ _ hj g.r8]
+  have hB := hE _ hin
+  refine ⟨?_, ?_, ?_⟩
+  · simp only [stepF]
+    exact xorCtr_length _ _ (by rw [List.length_take, hB]; rfl)
+  · simp only [stepF, List.length_set]; exact g.rn
+  · intro r hr
+    simp only [stepF] at hr
+    rcases List.mem_or_eq_of_mem_set hr with h | h
+    · exact g.r8 r h
+    · rw [h, List.length_drop, hB]
+
+theorem W_good (E : Bytes → Bytes) (hE : ∀ b, b.length = 16 → (E b).length = 16) (s : WState)
+    (hn : 0 < s.R.length) (g : Good s.R.length s) : Good s.R.length (W E s) := by
+  unfold W
+  generalize counters s.R.length = ts
+  generalize hnn : s.R.length = n at g hn ⊢
+  clear hnn
+  induction ts generalizing s with
+  | nil => exact g
+  | cons t ts ih => exact ih _ (stepF_good' E hE n hn s g t)
+
+/-- the state `Wrap` starts from -/
+def wrapState (data : Bytes) : WState :=
+  { A := aiv data.length,
+    R := semiblocks (data ++ Bytes.zeros (wrappingSize data.length - 8 - data.length)) }
+
+theorem padded_length (data : Bytes) :
+    (data ++ Bytes.zeros (wrappingSize data.length - 8 - data.length)).length =
+      wrappingSize data.length - 8 := by
+  have := wrappingSize_mult8 data.length
+  rw [List.length_append, Bytes.length_zeros]; omega
+
+theorem wrapState_R_length (data : Bytes) :
+    (wrapState data).R.length = (wrappingSize data.length - 8) / 8 := by
+  unfold wrapState
+  rw [semiblocks_length, padded_length]
+
+theorem wrapState_good (data : Bytes) : Good (wrapState data).R.length (wrapState data) := by
+  refine ⟨aiv_length _, rfl, ?_⟩
+  apply semiblocks_mem_len
+  have := wrappingSize_mult8 data.length
+  rw [padded_length]; omega
+
+theorem wrap_eq (E : Bytes → Bytes) (data : Bytes) (h1 : 16 ≤ data.length)
+    (h2 : data.length ≤ 8192) :
+    wrap E data = some ((W E (wrapState data)).A ++ (W E (wrapState data)).R.flatten) := by
+  unfold wrap
+  rw [if_neg (by omega), if_neg (by omega)]
+  rfl
+
+/-- the part of `Unwrap` after the inverse permutation: check the AIV, the encoded length and the
+    zero padding, strip them -/
+def decode (u : Bytes) : Option Bytes :=
+  if u.take 4 ≠ [0xA6, 0x59, 0x59, 0xA6] then none
+  else
+    let encodedSize := Bytes.toNatBE ((u.drop 4).take 4)
+    if wrappingSize encodedSize ≠ u.length then none
+    else if (u.drop (8 + encodedSize)).any (· ≠ 0) then none
+    else some ((u.drop 8).take encodedSize)
+
+theorem unwrap_eq_decode (D : Bytes → Bytes) (w : Bytes) (h1 : wrappingSize 16 ≤ w.length)
+    (h2 : w.length ≤ wrappingSize 8192) (h3 : w.length % 8 = 0) :
+    unwrap D w =
+      decode ((Winv D { A := w.take 8, R := semiblocks (w.drop 8) }).A ++
+        (Winv D { A := w.take 8, R := semiblocks (w.drop 8) }).R.flatten) := by
+  unfold unwrap
+  rw [if_neg (by omega), if_neg (by omega), if_neg (by omega)]
+  rfl
+
+theorem decode_aiv (data : Bytes) (k : Nat) (h2 : data.length ≤ 8192)
+    (hk : 8 + (data.length + k) = wrappingSize data.length) :
+    decode (aiv data.length ++ (data ++ Bytes.zeros k)) = some data := by
+  unfold decode aiv
+  have e1 : (([0xA6, 0x59, 0x59, 0xA6] : Bytes) ++ Bytes.be32 data.length ++
+      (data ++ Bytes.zeros k)).take 4 = [0xA6, 0x59, 0x59, 0xA6] := rfl
+  have hbe : (Bytes.be32 data.length).length = 4 := by simp [Bytes.be32]
+  have e2 : ((([0xA6, 0x59, 0x59, 0xA6] : Bytes) ++ Bytes.be32 data.length ++
+      (data ++ Bytes.zeros k)).drop 4).take 4 = Bytes.be32 data.length := by
+    rw [List.append_assoc, List.drop_left' (by rfl), List.take_left' hbe]
+  have e3 : Bytes.toNatBE (Bytes.be32 data.length) = data.length := by
+    unfold Bytes.be32
+    rw [Bytes.toNatBE_ofNatBE]
+    have : (256 : Nat) ^ 4 = 4294967296 := by decide
+    rw [this]; omega
+  have hpre : (([0xA6, 0x59, 0x59, 0xA6] : Bytes) ++ Bytes.be32 data.length).length = 8 := by
+    rw [List.length_append, hbe]; rfl
+  have e4 : (([0xA6, 0x59, 0x59, 0xA6] : Bytes) ++ Bytes.be32 data.length ++
+      (data ++ Bytes.zeros k)).drop 8 = data ++ Bytes.zeros k := List.drop_left' hpre
+  have e5 : (([0xA6, 0x59, 0x59, 0xA6] : Bytes) ++ Bytes.be32 data.length ++
+      (data ++ Bytes.zeros k)).drop (8 + data.length) = Bytes.zeros k := by
+    rw [← List.drop_drop, e4, List.drop_left]
+  rw [e1, if_neg (by simp)]
+  dsimp only
+  rw [e2, e3, e4, e5, List.take_left]
+  rw [if_neg (by
+    rw [List.length_append, hpre, List.length_append, Bytes.length_zeros]; omega)]
+  rw [if_neg (by simp [Bytes.zeros])]
+
+/-- **`Unwrap(Wrap(data)) = data`** for every invertible 16-byte block function, under exactly the
+    guards under which `Wrap` succeeds (16 ≤ |data| ≤ 8192). -/
+theorem unwrap_wrap (E D : Bytes → Bytes) (hE : BlockPair E D) (data : Bytes)
+    (h1 : 16 ≤ data.length) (h2 : data.length ≤ 8192) :
+    (wrap E data).bind (unwrap D) = some data := by
+  rw [wrap_eq E data h1 h2, Option.bind_some]
+  have hws := wrappingSize_mult8 data.length
+  have g0 := wrapState_good data
+  have hRl := wrapState_R_length data
+  have hn : 0 < (wrapState data).R.length := by rw [hRl]; omega
+  have g := W_good E hE.len (wrapState data) hn g0
+  have hinv := Winv_W E D hE (wrapState data) g0
+  generalize W E (wrapState data) = s at g hinv
+  have hfl : s.R.flatten.length = wrappingSize data.length - 8 := by
+    rw [flatten_length8 _ g.r8, g.rn, hRl]; omega
+  have e16 : wrappingSize 16 = 24 := by decide
+  have e8192 : wrappingSize 8192 = 8200 := by decide
+  have hlen : (s.A ++ s.R.flatten).length = wrappingSize data.length := by
+    rw [List.length_append, g.a8, hfl]; omega
+  rw [unwrap_eq_decode D _ (by omega) (by omega) (by omega)]
+  rw [List.take_left' g.a8, List.drop_left' g.a8, semiblocks_flatten _ g.r8]
+  have hs : ({ A := s.A, R := s.R } : WState) = s := rfl
+  rw [hs, hinv]
+  show decode (aiv data.length ++ (semiblocks _).flatten) = some data
+  rw [flatten_semiblocks _ (by rw [padded_length]; omega)]
+  exact decode_aiv data _ h2 (by omega)
+
+/-- `Wrap` fails exactly on the two size errors -/
+theorem wrap_eq_none_iff (E : Bytes → Bytes) (data : Bytes) :
+    wrap E data = none ↔ (data.length < 16 ∨ 8192 < data.length) := by
+  constructor
+  · intro h
+    by_cases h1 : 16 ≤ data.length
+    · by_cases h2 : data.length ≤ 8192
+      · rw [wrap_eq E data h1 h2] at h; cases h
+      · exact Or.inr (by omega)
+    · exact Or.inl (by omega)
+  · unfold wrap
+    rintro (h | h)
+    · rw [if_pos h]
+    · by_cases h1 : data.length < 16
+      · rw [if_pos h1]
+      · rw [if_neg h1, if_pos h]
+
+/-- **|Wrap(data)| = wrappingSize |data|** = 8·⌈|data|/8⌉ + 8, for every block function with
+    16-byte outputs on 16-byte inputs -/
+theorem wrap_length (E : Bytes → Bytes) (hE : ∀ b, b.length = 16 → (E b).length = 16)
+    (data w : Bytes) (h : wrap E data = some w) : w.length = wrappingSize data.length := by
+  have hguard : ¬ (data.length < 16 ∨ 8192 < data.length) := by
+    intro hg
+    rw [(wrap_eq_none_iff E data).mpr hg] at h; cases h
+  have h1 : 16 ≤ data.length := by omega
+  have h2 : data.length ≤ 8192 := by omega
+  rw [wrap_eq E data h1 h2] at h
+  injection h with h
+  subst h
+  have hws := wrappingSize_mult8 data.length
+  have hRl := wrapState_R_length data
+  have hn : 0 < (wrapState data).R.length := by rw [hRl]; omega
+  have g := W_good E hE (wrapState data) hn (wrapState_good data)
+  rw [List.length_append, g.a8, flatten_length8 _ g.r8, g.rn, hRl]
+  omega
+
+/-- `Unwrap` rejects every input whose length is not a multiple of 8 … -/
+theorem unwrap_bad_multiple (D : Bytes → Bytes) (w : Bytes) (h : w.length % 8 ≠ 0) :
+    unwrap D w = none := by
+  unfold unwrap
+  by_cases h1 : w.length < wrappingSize 16
+  · rw [if_pos h1]
+  · rw [if_neg h1]
+    by_cases h2 : w.length > wrappingSize 8192
+    · rw [if_pos h2]
+    · rw [if_neg h2, if_pos h]
+
+/-- … or is shorter than 24 bytes … -/
+theorem unwrap_too_short (D : Bytes → Bytes) (w : Bytes) (h : w.length < 24) :
+    unwrap D w = none := by
+  unfold unwrap
+  rw [if_pos (by rw [show wrappingSize 16 = 24 by decide]; exact h)]
+
+/-- … or longer than 8200 bytes. -/
+theorem unwrap_too_long (D : Bytes → Bytes) (w : Bytes) (h : 8200 < w.length) :
+    unwrap D w = none := by
+  unfold unwrap
+  have e16 : wrappingSize 16 = 24 := by decide
+  have e8192 : wrappingSize 8192 = 8200 := by decide
+  rw [if_neg (by omega), if_pos (by omega)]
+
+/-- anything `Unwrap` accepts has a length in range and divisible by 8 -/
+theorem unwrap_some_length (D : Bytes → Bytes) (w d : Bytes) (h : unwrap D w = some d) :
+    24 ≤ w.length ∧ w.length ≤ 8200 ∧ w.length % 8 = 0 := by
+  refine ⟨?_, ?_, ?_⟩
+  · apply Decidable.byContradiction; intro hc
+    rw [unwrap_too_short D w (by omega)] at h; cases h
+  · apply Decidable.byContradiction; intro hc
+    rw [unwrap_too_long D w (by omega)] at h; cases h
+  · apply Decidable.byContradiction; intro hc
+    rw [unwrap_bad_multiple D w hc] at h; cases h
+
+/-- non-vacuity: an invertible 16-byte block function (byte reversal) -/
+theorem blockPair_reverse : BlockPair List.reverse List.reverse :=
+  ⟨fun b h => by simpa using h, fun b _ => List.reverse_reverse b⟩
+
+example : (wrap List.reverse (List.replicate 17 5)).bind (unwrap List.reverse) =
+    some (List.replicate 17 5) :=
+  unwrap_wrap _ _ blockPair_reverse _ (by decide) (by decide)
+
+example (w : Bytes) (h : wrap List.reverse (List.replicate 17 5) = some w) : w.length = 32 :=
+  wrap_length _ blockPair_reverse.len _ w h
+
+end TinkVerif.Kwp
+
+section AxiomAudit
+#print axioms TinkVerif.Cmac.xeLoop_eq
+#print axioms TinkVerif.Cmac.xorEndAndCompute_eq
+#print axioms TinkVerif.Cmac.xorEndAndCompute_bad_last
+#print axioms TinkVerif.Cmac.xorEndAndCompute_short_data
+#print axioms TinkVerif.Cmac.xorEndAndCompute_eq_none_iff
+#print axioms TinkVerif.Cmac.xorEndAndCompute_eq_spec
+#print axioms TinkVerif.Cmac.mulByX_length
+#print axioms TinkVerif.Cmac.two_mul_toNatBE
+#print axioms TinkVerif.Cmac.mulByX_eq_dblSpec
+#print axioms TinkVerif.Cmac.toNatBE_mulByX
+#print axioms TinkVerif.Bytes.ofNatBE_toNatBE
+#print axioms TinkVerif.Siv.compute_length
+#print axioms TinkVerif.Siv.xor_pad16
+#print axioms TinkVerif.Siv.s2v_eq_spec
+#print axioms TinkVerif.Siv.s2v_eq_spec_short
+#print axioms TinkVerif.Siv.s2v_eq_rfc
+#print axioms TinkVerif.Siv.s2v_length
+#print axioms TinkVerif.Siv.decryptRaw_encryptRaw'
+#print axioms TinkVerif.Kwp.flatten_semiblocks
+#print axioms TinkVerif.Kwp.semiblocks_flatten
+#print axioms TinkVerif.Kwp.unwrap_wrap
+#print axioms TinkVerif.Kwp.wrap_eq_none_iff
+#print axioms TinkVerif.Kwp.wrap_length
+#print axioms TinkVerif.Kwp.unwrap_bad_multiple
+#print axioms TinkVerif.Kwp.unwrap_too_short
+#print axioms TinkVerif.Kwp.unwrap_too_long
+#print axioms TinkVerif.Kwp.unwrap_some_length
+end AxiomAudit
